@@ -436,8 +436,11 @@ def HexDigit(b, hi):
     """ASCII code of the high / low lowercase hex digit of byte term b (an Int term in 0..255)."""
     if b.op == 'const':
         return IntVal(ord(('%02x' % b.args[0])[0 if hi else 1]))
-    t = mk('hexhi' if hi else 'hexlo', (b,), INT)
-    t.lo, t.hi = 48, 102
+    if b.op == 'bvconst':
+        return BitVecVal(ord(('%02x' % b.args[0])[0 if hi else 1]), 8)
+    t = mk('hexhi' if hi else 'hexlo', (b,), b.sort)
+    if b.sort == INT:
+        t.lo, t.hi = 48, 102
     return t
 
 
@@ -460,6 +463,8 @@ def width(t):
     op = t.op
     if op in ('bvvar', 'bvconst'):
         return t.args[1]
+    if op in ('hexhi', 'hexlo'):
+        return 8
     if op == 'int2bv':
         return t.args[1]
     if op == 'concat':
@@ -548,8 +553,12 @@ def to_z3(t):
         z = _z3.If(to_z3(a[0]), to_z3(a[1]), to_z3(a[2]))
     elif op in ('hexhi', 'hexlo'):
         b = to_z3(a[0])
-        n = b / 16 if op == 'hexhi' else b % 16
-        z = _z3.If(n < 10, 48 + n, 87 + n)
+        if t.sort == BV:
+            n = _z3.ZeroExt(4, _z3.Extract(7, 4, b) if op == 'hexhi' else _z3.Extract(3, 0, b))
+            z = _z3.If(_z3.ULT(n, 10), n + 48, n + 87)
+        else:
+            n = b / 16 if op == 'hexhi' else b % 16
+            z = _z3.If(n < 10, 48 + n, 87 + n)
     elif op == 'bvvar':
         z = _z3.BitVec(a[0], a[1])
     elif op == 'bvconst':
